@@ -94,7 +94,9 @@ def expected_recording(text, url=URL):
         # semantic problems on earlier lines (undefined reference, illegal define name)
         # also reject; either way the verdict is 'reject' -- unless an earlier line is
         # in an unspecified zone
-        pre = _prefix_status(text, e.lineno)
+        # 'unclosed sections' is noticed after the last line: every line is part of the prefix
+        upto = e.lineno + 1 if e.why == "unclosed sections" else e.lineno
+        pre = _prefix_status(text, upto)
         return pre if pre[0] == "unspec" else ("reject",)
     return _walk(events, url)
 
@@ -315,7 +317,7 @@ def shards(tier, seed):
     firsts = linegen.TOKENS
     for f in firsts:
         specs.append({"part": "single", "first": f, "maxtok": maxtok})
-    nsh = 14
+    nsh = len(linegen.LINE_SHAPES)
     for i in range(nsh):
         specs.append({"part": "multi", "first": i, "maxlines": 4})
     both = linegen.LINE_SHAPES + linegen.DIRECTIVE_SHAPES
@@ -325,6 +327,7 @@ def shards(tier, seed):
     for i in range(16):
         specs.append({"part": "random", "seed": seed * 1000 + i, "n": per,
                       "directives": i % 2 == 1})
+    specs.append({"part": "atheris", "seed": seed, "runs": 15000 if tier == "quick" else 800000})
     return specs
 
 
@@ -342,6 +345,11 @@ def _do(res, text, modes):
 def run_shard(spec):
     res = Result()
     part = spec["part"]
+    if part == "atheris":
+        import sys
+        from zcv import fuzzrun
+        fuzzrun.run(res, sys.modules[__name__], ID, spec["runs"], spec["seed"], max_len=200, timeout=1500)
+        return res
     if part == "single":
         f = spec["first"]
         lines = linegen.single_lines_with_first([f], spec["maxtok"])
@@ -430,3 +438,18 @@ def check_coverage(tier, counters):
     if counters.get("random:reject", 0) < 100:
         probs.append("only %d rejected random texts" % counters.get("random:reject", 0))
     return probs
+
+
+# --------------------------------------------------------------------------
+# Atheris stage (python3-vt): the bytes are the text
+
+
+def fuzz_decode(data):
+    text = data.decode("utf-8", "replace")[:600]
+    return [{"text": text, "modes": ["schemaless", "recording"]}]
+
+
+def fuzz_seeds():
+    seeds = ["<a>\nk v\n</a>\n", "<A n/>\n", "%import p\nk\n", "<a>\n<b x>\n</b>\n</a>\n", "# c\n\nk (v)\n",
+             "%define n v\nk $n\n", "<a b c>\n", "</a>\n", "k v\n"]
+    return [s.encode("utf-8") for s in seeds]
